@@ -32,7 +32,7 @@ Definition data_clause (nm : string) (c : case) (q : kcall) (r : res (dict * str
   match r, spec_of c q with
   | Ok (d, _), Ok d' => if same_dict d d' then [] else [nm]
   | Err e, Err e' => if exc_eqb e e' then [] else [nm]
-  | Err e, Ok _ => if empty_case_of c q && exc_eqb e ValueError then [] else [nm]
+  | Err _, Ok _ => [nm]
   | Ok _, Err _ => [nm]
   end.
 
